@@ -181,7 +181,7 @@ impl FixedMethod {
         }
 
         // Sort the suggestions.
-        self.suggestions.sort_unstable();
+        self.suggestions.sort();
 
         // Reduce the number of suggestions and add the typed english word at the end.
         // Also check that the typed text is not already included (may happen
